@@ -619,3 +619,16 @@ theorem checkGroups_sub {cn : List String} :
             · exact Or.inr (by simp only [List.map_cons]; exact List.mem_cons_of_mem _ h1)
 
 end SSV.Config
+
+namespace SSV.Config
+
+theorem mapSize_nodup : ∀ {l : List String}, l.Nodup → mapSize l = l.length
+  | [], _ => rfl
+  | n :: ns, h => by
+    have ⟨hn, hns⟩ := List.nodup_cons.mp h
+    have hc : ns.contains n = false := by simpa using hn
+    unfold mapSize
+    rw [hc, mapSize_nodup hns]
+    simp
+
+end SSV.Config
